@@ -43,6 +43,11 @@ func init() {
 		rep, _ := strconv.Atoi(f[2])
 		return runUniqBig(n, rep)
 	}
+	replayers["juniqstall"] = func(f []string) string {
+		n, _ := strconv.Atoi(f[1])
+		rep, _ := strconv.Atoi(f[2])
+		return runUniqStall(n, rep, 250*time.Millisecond)
+	}
 	replayers["jlog"] = func(f []string) string { return runJLog(f[1], f[2]) }
 }
 
@@ -880,8 +885,12 @@ func logReal(uniq bool, rs []scan.Result) string {
 // runUniqBig: N distinct hosts (ARP results 10.a.b.c), then the first R of them again, then every third of
 // them once more, through the real UniqueLogger.  Observed = number of lines written, whether they are
 // exactly the N hosts in first-sighting order.  (Too long to list: counted.)
-func runUniqBig(n, rep int) string {
-	w := &countWriter{}
+func runUniqBig(n, rep int) string { return runUniqStall(n, rep, 0) }
+
+// runUniqStall: the same with an output that does not take anything for a while (a paused terminal, a pipe whose
+// reader lags): the hosts sighted — and sighted again — in the meantime are still printed once each
+func runUniqStall(n, rep int, stall time.Duration) string {
+	w := &countWriter{stall: stall}
 	l, err := log.NewLogger(w, "json", log.JSON())
 	if err != nil {
 		return "ERR " + err.Error()
@@ -921,9 +930,15 @@ func runUniqBig(n, rep int) string {
 	return fmt.Sprintf("lines=%d;first_sightings_in_order=%d", len(w.lines), inorder)
 }
 
-type countWriter struct{ lines []string }
+type countWriter struct {
+	lines []string
+	stall time.Duration
+}
 
 func (w *countWriter) Write(p []byte) (int, error) {
+	if w.stall > 0 && len(w.lines) == 3 {
+		time.Sleep(w.stall)
+	}
 	w.lines = append(w.lines, string(p))
 	return len(p), nil
 }
@@ -1076,6 +1091,14 @@ func jsonComponent(r *hx.Run) {
 		rep := 1 + r.Rng.Intn(n)
 		r.Count("uniqbig")
 		r.Case("uniqbig", "juniqbig", strconv.Itoa(n), strconv.Itoa(rep), runUniqBig(n, rep))
+	}
+	// … and an output that stalls while hosts are sighted and sighted again (more of them than every buffer between
+	// the capture loop and the writer holds)
+	for i := 0; i < 2; i++ {
+		n := 2500 + r.Rng.Intn(4000)
+		rep := n/2 + r.Rng.Intn(n/2)
+		r.Count("uniqstall")
+		r.Case("uniqstall", "juniqstall", strconv.Itoa(n), strconv.Itoa(rep), runUniqStall(n, rep, 250*time.Millisecond))
 	}
 }
 
